@@ -12,6 +12,8 @@ CLAIMED = {
          'Decides from the source that no source of run-to-run variation exists (indeterminate fields, hash/address-ordered iteration, ambient clock/random/env/thread APIs, unreset globals). Necessary conditions of deterministic replay; trace equality itself is not decided.', '4/C01'),
  'C02': ('static: writer/caller tables of the clock, dominating-guard proof of non-negative advance, CFG must-precede in simulation::run',
          'Decides who may write, advance and reset the virtual clock, that every advance is by a difference proven non-negative by a dominating guard, that run() polls before every advance and advances to the front of the timer queue, and who writes the stop flag. FIFO of posted handlers (boost) and no-event-lost-after-restart are not decided.', '4/C02'),
+ 'C03': ('static: timer typestate (queued <=> !m_expired) as CFG must-precede/must-follow rules, writer tables, tie-order idiom check, handler ownership flow',
+         'Decides the typestate pairing of queue membership and m_expired on every path, that the sort key is never written while queued, upper_bound tie order, cancel/re-arm/destructor abort reachability and return values per path, and that fire() owns, clears and posts the handler. Firing instants are not decided.', '4/C03'),
 }
 
 NOT_YET = {}
